@@ -760,6 +760,53 @@ pub fn run(cfg: &Cfg, rep: &mut Report) {
             }
         }
     }
+    // long sequences: sizes around the thresholds implementations like to special-case, arrays and strings whose
+    // multi-byte characters sit at the start, in the middle, at the end, everywhere or nowhere
+    {
+        let mut rng = cfg.rng(909);
+        for n in [8usize, 15, 16, 17, 23, 24, 31, 32, 33, 63, 64, 65, 127, 128, 129, 255, 256, 257, 1000] {
+            let ints: Vec<Variable> = (1..=n as i64).map(Variable::Int).collect();
+            let text = format!("[{}]", (1..=n).map(|k| k.to_string()).collect::<Vec<_>>().join(", "));
+            let ascii: Vec<char> = (0..n).map(|k| (b'a' + (k % 26) as u8) as char).collect();
+            let with = |pos: usize, ch: char| {
+                let mut v = ascii.clone();
+                v[pos] = ch;
+                Seq::Str(v)
+            };
+            let wide: Vec<char> = (0..n).map(|k| ['é', '日', '🦀', 'ß'][k % 4]).collect();
+            let long = [Seq::Arr(ints, text), Seq::Str(ascii.clone()), with(0, 'é'), with(n / 2, '日'), with(n - 1, '🦀'), with(n - 2, 'ß'), Seq::Str(wide)];
+            for (si, seq) in long.iter().enumerate() {
+                if n == 1000 && si > 3 {
+                    continue;
+                }
+                cell += 1;
+                if !cfg.owns(cell) {
+                    continue;
+                }
+                if deadline.over() {
+                    ctx.rep.inconclusive("budget-cut-long-sequences");
+                    break;
+                }
+                ctx.rep.count("long-sequence-cases");
+                ctx.check_len(seq);
+                let m = n as i64;
+                let mut idx = vec![0, 1, m / 2, m - 2, m - 1, m, m + 1, -1, -2, -m + 1, -m, -m - 1, 7, 8, 15, 16, 17, 31, 32, 33, 63, 64, 65, 127, 128, 255, 256, -8, -16, -17, -32, -33, -64, -65, -128, -129, -256, -257];
+                idx.dedup();
+                for i in &idx {
+                    ctx.check_index(seq, *i);
+                }
+                let bounds: Vec<Option<i64>> = vec![None, Some(0), Some(1), Some(m / 2), Some(m - 1), Some(m), Some(m + 1), Some(-1), Some(-m), Some(-m - 1), Some(16), Some(-16), Some(64), Some(i64::MAX), Some(i64::MIN)];
+                let steps: Vec<Option<i64>> = vec![None, Some(1), Some(2), Some(3), Some(-1), Some(-2), Some(m - 1), Some(m), Some(-m), Some(16), Some(0), Some(i64::MIN), Some(i64::MAX)];
+                for _ in 0..if n == 1000 { 12 } else { 40 } {
+                    let (a, b, c) = (*rng.pick(&bounds), *rng.pick(&bounds), *rng.pick(&steps));
+                    ctx.check_slice(seq, a, b, c, false);
+                }
+                ctx.check_slice(seq, None, None, Some(-1), false);
+                ctx.check_slice(seq, Some(1), None, None, true);
+                ctx.check_slice(seq, None, Some(-1), None, true);
+            }
+        }
+    }
     ctx.rep.sample("slice", 1, || {
         Obj::new()
             .s("expr", "[1, 2, 3][-1:0:-1]")
